@@ -29,6 +29,10 @@ pub struct BbCase {
     /// dependencies: in a one-shot run nothing is watching, so nothing may run twice.
     #[serde(default)]
     pub touch_dep_input: bool,
+    /// async-std runtime threads of the zinoma process (0 = default, one per core): the real
+    /// executor is sampled on single-threaded, narrow and wide configurations.
+    #[serde(default)]
+    pub runtime_threads: u8,
 }
 
 const READ_ST: &str =
@@ -187,6 +191,7 @@ fn service_pids(trace: &[TraceLine]) -> BTreeSet<i32> {
 
 /// Runs the case to completion; if zinoma goes idle while alive it is terminated with SIGTERM.
 pub fn run_bb_case(case: &BbCase, extra_args: &[String], tag: &str) -> BbObs {
+    set_runtime_threads(case.runtime_threads);
     let g = &case.graph;
     let sb = Sandbox::new(tag);
     let dir = write_bb_project(&sb, case);
@@ -339,8 +344,9 @@ pub fn bb_case(p: BbParams) -> impl Strategy<Value = BbCase> {
         prop::collection::vec(0u8..40, p.max_n),
         prop::collection::vec(any::<u8>(), p.max_n),
         any::<bool>(),
+        prop::sample::select(vec![0u8, 0, 0, 1, 1, 2, 4]),
     )
-        .prop_map(move |(raw, rootsel, sleep_ms, fail, qualified)| {
+        .prop_map(move |(raw, rootsel, sleep_ms, fail, qualified, runtime_threads)| {
             let mut graph = build_graph(&raw);
             if !p.services {
                 for t in graph.targets.iter_mut() {
@@ -390,6 +396,7 @@ pub fn bb_case(p: BbParams) -> impl Strategy<Value = BbCase> {
                 rendezvous,
                 with_inputs: p.with_inputs(),
                 touch_dep_input: p.touch_dep_input(),
+                runtime_threads,
             }
         })
 }
@@ -404,6 +411,7 @@ pub fn bb_summary(case: &BbCase) -> Value {
             case.sleep_ms.get(i).copied().unwrap_or(0), case.exit_code.get(i).copied().unwrap_or(0))).collect::<Vec<_>>(),
         "requested": case.roots.iter().map(|&r| g.ids(r)).collect::<Vec<_>>(),
         "rendezvous": case.rendezvous.iter().map(|&r| g.ids(r)).collect::<Vec<_>>(),
+        "runtime_threads": case.runtime_threads,
     })
 }
 
@@ -453,6 +461,9 @@ fn base(case: &BbCase, obs: &BbObs) -> CaseResult {
         .collect();
     if !declared_failing(case).is_empty() {
         classes.push("has-failing-script".into());
+    }
+    if case.runtime_threads > 0 {
+        classes.push(format!("runtime-threads-{}", case.runtime_threads));
     }
     let mut r = CaseResult {
         classes,
